@@ -8,7 +8,7 @@ I64MAX, I64MIN = (1 << 63) - 1, -(1 << 63)
 class _C19(Spec):
     pid = "C19"
     lean_module = "Starcal.Props.C19"
-    src_ties = ["Starcal.SrcTie.Utils"]
+    src_ties = ["Starcal.SrcTie.Utils", "Starcal.SrcTie.Bisect"]
     src_overflow = ["Starcal.SrcTie.NoOverflow"]
     expected = "a = b*q + r with r zero or of the sign of b and |r| < |b|; Divmod returns that pair; BisectLeft returns the first position whose element is >= key"
     rule = ("line protocol `misc divmod a b`: exhaustive a in [-600,600], b in [-40,40]\\{0}; seeded random 64-bit pairs incl. extremes (MinInt/-1 excluded); "
